@@ -214,3 +214,66 @@ def rf9(run):
                 if not ok:
                     run.violation(rule, tm, 'rewrite of %s' % src, 'target_machinize must rewrite %s into %s with swapped operands: the '
                                   'below/below-or-equal conditions after ucomis are also true for NaN operands' % (src, dst), line=tm.line)
+
+
+def _char_cases(f):
+    best = set()
+    for sw in R.find_switches(f):
+        chars = set()
+        try:
+            regs = R.switch_regions(f, sw)
+        except F.AnalysisBroken:
+            continue
+        for r in regs:
+            for (nm, lo, hi) in r['cases']:
+                if lo is not None and 32 <= lo < 127:
+                    for v in range(lo, (hi if hi is not None else lo) + 1):
+                        chars.add(chr(v))
+        if len(chars) > len(best):
+            best = chars
+    return best
+
+
+def rf7i(run):
+    rule = 'RF7i'
+    run.rule(rule, 'the two readers of the replacement mini-language (size estimation get_max_insn_size and emission out_insn) handle the '
+                   'same element characters, every element used in a patterns[] replacement string is handled by both, and every element '
+                   'of a pattern string is handled by pattern_match_p')
+    gen = run.tu('gen')
+    g, rows = read_patterns(gen)
+    a, b = _char_cases(gen.func('get_max_insn_size')), _char_cases(gen.func('out_insn'))
+    if len(a) < 15 or len(b) < 15:
+        raise F.AnalysisBroken('replacement readers not recognised')
+    for ch in sorted(a | b):
+        ok = ch in a and ch in b
+        run.ob(rule, ('reader-pair', ch), ok, {'element': ch, 'get_max_insn_size': ch in a, 'out_insn': ch in b})
+        if not ok:
+            run.violation(rule, gen.func('out_insn' if ch in a else 'get_max_insn_size'), 'replacement element %s' % ch,
+                          'replacement element "%s" is handled by %s but not by %s: the estimated size and the emitted code of an '
+                          'instruction can differ' % (ch, 'get_max_insn_size' if ch in a else 'out_insn', 'out_insn' if ch in a else 'get_max_insn_size'),
+                          line=1)
+    hexd = set('0123456789ABCDEF')
+    used = {}
+    for r in rows:
+        for insn in r['rep'].split(';'):
+            for tok in insn.split():
+                if all(c in hexd for c in tok):
+                    continue
+                used.setdefault(tok[0], r)
+    for ch, r in sorted(used.items()):
+        ok = ch in a and ch in b
+        run.ob(rule, ('used', ch), ok, {'element': ch, 'first used in': '{%s, "%s"}' % (r['code'], r['rep'][:30])})
+        if not ok:
+            run.violation(rule, '<file scope>', 'replacement element %s' % ch, 'replacement "%s" of %s uses element "%s" which the readers do '
+                          'not handle' % (r['rep'], r['code'], ch), file='mir-gen-x86_64.c', line=r['line'])
+    pm = _char_cases(gen.func('pattern_match_p'))
+    pused = {}
+    for r in rows:
+        for tok in r['pat'].split():
+            pused.setdefault(tok[0], r)
+    for ch, r in sorted(pused.items()):
+        ok = ch in pm or ch == '$'
+        run.ob(rule, ('pattern-used', ch), ok)
+        if not ok:
+            run.violation(rule, '<file scope>', 'pattern element %s' % ch, 'pattern "%s" of %s uses element "%s" which pattern_match_p does not '
+                          'handle' % (r['pat'], r['code'], ch), file='mir-gen-x86_64.c', line=r['line'])
